@@ -144,7 +144,7 @@ ImageDeclared(p) ==
 
 TrailerDeclared(p) ==
     << <<1, "preamble.record_length", 720>>, <<1, "number_of_low_resolution_images", p.nlow>> >>
-    \o [i \in 1..p.nlow |-> <<1, "low_resolution_image_sizes." \o ToString(i - 1) \o ".record_length", p.lens[i]>>]
+    \o [i \in 1..p.nlow |-> <<1, "low_resolution_image_sizes[" \o ToString(i - 1) \o "].record_length", p.lens[i]>>]
 
 Declared(file, p) == CASE file = "leader"  -> LeaderDeclared(p)
                        [] file = "volume"  -> VolumeDeclared(p)
